@@ -288,6 +288,7 @@ fn run(rp: &Rp) -> i32 {
         "std_struct" => replay_std_struct(rp),
         "purity" | "purity_clone" => replay_purity(rp),
         "sim_meta" => replay_sim_meta(rp),
+        "replace_script" => replay_replace_script(rp, &hay),
         "stream" => replay_stream(rp, &hay),
         "pk_prim" => replay_pk_prim(),
         "ac_meta" => replay_ac_meta(rp),
@@ -577,6 +578,150 @@ fn replay_stream_one(rp: &Rp, hay: &[u8]) -> i32 {
     }
     aho_corasick::verif::buffer::set_spare_capacity(None);
     report("stream search / stream replacement over every read schedule", &bad, &"equal to the in-memory result", !bad.is_empty())
+}
+
+/// Native form of the compositional C12 harnesses: the real replace drivers
+/// (and the real non-overlapping iterator) run natively over the abstract
+/// searcher the solver chose (hook `ScriptAut`), compared with the splice
+/// specification. When the scripted match sequence can be realised by a real
+/// pattern list (the matched substrings, leftmost-first), the same comparison
+/// is repeated through the public `AhoCorasick` API and reported as well.
+fn replay_replace_script(rp: &Rp, hay: &[u8]) -> i32 {
+    use aho_corasick::automaton::Automaton;
+    use aho_corasick::verif::automaton::ScriptAut;
+    let n = rp.usize("n");
+    let which = rp.get("which").to_string();
+    let stop = rp.kv.get("stop").and_then(|v| v.parse::<usize>().ok()).unwrap_or(0);
+    let mut table = [(false, 0u8, 0u8, 0u8); 8];
+    for i in 0..=n {
+        let g = |k: &str| rp.kv.get(&format!("{}{}", k, i)).and_then(|v| v.parse::<usize>().ok()).unwrap_or(0);
+        table[i] = (g("present") != 0, g("pid") as u8, g("ms") as u8, g("me") as u8);
+    }
+    let aut = ScriptAut { table, std: rp.flag("std") };
+    // the iterator rule on the table
+    let look = |p: usize| -> Option<M> {
+        if p > n || !table[p].0 { None } else { Some((table[p].1 as usize, table[p].2 as usize, table[p].3 as usize)) }
+    };
+    let mut seq: Vec<M> = vec![];
+    let (mut pos, mut last) = (0usize, None);
+    for _ in 0..=n + 1 {
+        let m = match look(pos) {
+            Some((_, ms, me)) if ms == me && Some(me) == last => look(pos + 1),
+            m => m,
+        };
+        match m {
+            Some(m) => {
+                seq.push(m);
+                pos = m.2;
+                last = Some(m.2);
+            }
+            None => break,
+        }
+    }
+    let tag = |p: usize| -> Vec<u8> { if which == "b" && p % 2 == 1 { vec![b'0' + p as u8; 2] } else { vec![b'0' + p as u8] } };
+    let boundary = |i: usize| i == n || (i < n && (hay[i] as i8) >= -0x40);
+    let mut want: Vec<u8> = vec![];
+    let (mut copied, mut calls) = (0usize, 0usize);
+    for &(p, ms, me) in seq.iter() {
+        if which == "s" && !(boundary(ms) && boundary(me)) {
+            continue;
+        }
+        want.extend_from_slice(&hay[copied..ms]);
+        want.extend_from_slice(&tag(p));
+        copied = me;
+        calls += 1;
+        if calls == stop {
+            break;
+        }
+    }
+    want.extend_from_slice(&hay[copied..]);
+    let run = |a: &dyn Fn() -> Vec<u8>| -> Result<Vec<u8>, ()> { std::panic::catch_unwind(std::panic::AssertUnwindSafe(|| a())).map_err(|_| ()) };
+    let got = if which == "b" {
+        run(&|| {
+            let mut dst = vec![];
+            let mut c = 0usize;
+            aut.try_replace_all_with_bytes(hay, &mut dst, |m, _b, dst| {
+                dst.extend_from_slice(&tag(m.pattern().as_usize()));
+                c += 1;
+                c != stop
+            })
+            .unwrap();
+            dst
+        })
+    } else {
+        let text = match std::str::from_utf8(hay) {
+            Ok(t) => t.to_string(),
+            Err(_) => {
+                println!("counterexample haystack is not valid UTF-8 (outside the harness's assumption)");
+                return 2;
+            }
+        };
+        run(&|| {
+            let mut dst = String::new();
+            let mut c = 0usize;
+            aut.try_replace_all_with(&text, &mut dst, |m, _s, dst| {
+                dst.push((b'0' + m.pattern().as_usize() as u8) as char);
+                c += 1;
+                c != stop
+            })
+            .unwrap();
+            dst.into_bytes()
+        })
+    };
+    let bad = match &got {
+        Ok(g) => *g != want,
+        Err(()) => true,
+    };
+    println!("abstract searcher: iterator yields {:?} on {:?}", seq, String::from_utf8_lossy(hay));
+    // best-effort realisation through the public API
+    let mut pats: Vec<Vec<u8>> = vec![];
+    for &(_, ms, me) in seq.iter() {
+        let p = hay[ms..me].to_vec();
+        if !pats.contains(&p) {
+            pats.push(p);
+        }
+    }
+    if !pats.is_empty() {
+        if let Ok(ac) = AhoCorasick::builder().match_kind(aho_corasick::MatchKind::LeftmostFirst).build(&pats) {
+            let real: Vec<(usize, usize)> = ac.find_iter(hay).map(|m| (m.start(), m.end())).collect();
+            let scripted: Vec<(usize, usize)> = seq.iter().map(|m| (m.1, m.2)).collect();
+            if real == scripted {
+                let out = std::panic::catch_unwind(std::panic::AssertUnwindSafe(|| {
+                    if which == "b" {
+                        let mut dst = vec![];
+                        ac.replace_all_with_bytes(hay, &mut dst, |_m, _b, d| {
+                            d.push(b'#');
+                            true
+                        });
+                        dst
+                    } else {
+                        let mut dst = String::new();
+                        ac.replace_all_with(std::str::from_utf8(hay).unwrap(), &mut dst, |_m, _s, d| {
+                            d.push('#');
+                            true
+                        });
+                        dst.into_bytes()
+                    }
+                }));
+                let mut w2: Vec<u8> = vec![];
+                let mut c2 = 0;
+                for &(ms, me) in scripted.iter() {
+                    if which == "s" && !(boundary(ms) && boundary(me)) {
+                        continue;
+                    }
+                    w2.extend_from_slice(&hay[c2..ms]);
+                    w2.push(b'#');
+                    c2 = me;
+                }
+                w2.extend_from_slice(&hay[c2..]);
+                println!("realised through the public API with patterns {:?}: replace_all_with -> {:?}, splice definition -> {:?}{}",
+                    pats.iter().map(|p| String::from_utf8_lossy(p).to_string()).collect::<Vec<_>>(),
+                    out.as_ref().map(|o| String::from_utf8_lossy(o).to_string()), String::from_utf8_lossy(&w2),
+                    if out.as_ref().map_or(true, |o| *o != w2) { "  (differs)" } else { "" });
+            }
+        }
+    }
+    report("replace routine over the abstract searcher", &got.map(|g| String::from_utf8_lossy(&g).to_string()), &String::from_utf8_lossy(&want).to_string(), bad)
 }
 
 /// Native form of `pk_prim`. (1) function: for every needle length 0..=13, every
